@@ -173,6 +173,10 @@ func (c *Ctx) RunNamed(names []string, workers int, fn func(cs *Case)) {
 						if p := recover(); p != nil {
 							// a panic escaping a case is either the library's (the
 							// check should have guarded the call) or the harness's
+							if msg := fmt.Sprint(p); strings.HasPrefix(msg, "harness:") {
+								c.HarnessError("case %s: %s\n%s", cs.Name, msg, debug.Stack())
+								return
+							}
 							cs.Violation("panic-escaped", nil, fmt.Sprintf("panic: %v", p), string(debug.Stack()))
 						}
 					}()
